@@ -343,6 +343,68 @@ def check_C17(tier):
 
 
 # ------------------------------------------------------------------------------------------------
+# handshake
+
+def hs_check(prop, tier, kind, cls, rule, level):
+    out = Outcome(prop, tier, level)
+    wd = vlib.workdir(prop)
+    r = vlib.model_check("MC_Handshake.tla", "MC_Handshake.cfg", wd)
+    out.add_s1(r, "MC_Handshake (two peers, every fragmentation and interleaving, P = 3, T = 2; safety + liveness under weak fairness)")
+    logs = sess_logs(wd, "hs", kind, tier)
+    res = vlib.parallel([(lambda pth=pth: vlib.validate_trace("Trace_Handshake.tla", pth, wd, {"P": 1536})) for pth, _ in logs], nproc=8)
+    for (pth, info), r in zip(logs, res):
+        out.add_trace(r, runs=info.get("runs", 0))
+        out.cov["process_calls"] = out.cov.get("process_calls", 0) + info.get("steps", 0)
+        r["verdicts"] = [v for v in r["verdicts"] if v["class"] in ("TOOL", cls)]
+        out.verdicts(r)
+    return out, wd, logs
+
+
+def check_C05(tier):
+    out, wd, logs = hs_check("C05", tier, "flow", "HS", None, "model_checking")
+    sample_events(out, logs[0][0], ("Proc", "Gen"), n=3)
+    out.assumptions = ["TLC; harness logger; the model counts bytes, the trace check compares handed-back bytes by value"]
+    return out.finish(rule="real Handshake x real Handshake (either role, either or both sides starting) and real x harness-made "
+                           "digest-less peer, under whole / boundary-table (1, 2, 511..513, 1535..1537, 3072..3074) / random / "
+                           "1-byte fragmentation with random interleaving and 0..300 trailing bytes per side; every process call "
+                           "judged by HsStep with P = 1536")
+
+
+def check_C11(tier):
+    out, wd, logs = hs_check("C11", tier, "digest", "DIG", None, "exploration")
+    # how many of the 728 own offsets were seen, per scheme (measured from the logs)
+    own = set()
+    crafted = set()
+    evals = 0
+    for pth, _ in logs:
+        with open(pth) as f:
+            for line in f:
+                if '"P1Facts"' in line:
+                    e = json.loads(line)
+                    evals += 1
+                    if e["lib"]:
+                        for k in ("fp", "fms"):
+                            for pos in e["valid"][k]:
+                                own.add((e["role"], pos))
+                    else:
+                        crafted.add((e["role"], e["dpos"]))
+                elif '"P2Facts"' in line:
+                    evals += 1
+    out.cov["evaluations"] = evals
+    out.cov["distinct_nontrivial"] = len(own) + len(crafted)
+    out.cov["own_packet1_digest_positions_seen"] = len(own)
+    out.cov["received_packet1_digest_positions_exercised"] = len(crafted)
+    out.cov["exhaustive"] = False
+    sample_events(out, logs[0][0], ("P1Facts", "P2Facts"), n=3)
+    out.assumptions = ["HMAC-SHA256 is an uninterpreted primitive for the specification: the harness' own implementation (FIPS 180-4 / RFC 2104, "
+                       "self-checked against RFC 4231 vectors at start) supplies facts about it", "fill hook for deterministic own packets",
+                       "TLC; harness logger"]
+    return out.finish(rule="own packet 1: full brute-force digest scan of every generated packet (deterministic fill with varying "
+                           "seeds + real random fill), both roles; received packet 1: every one of the 728 offsets of both schemes "
+                           "for both roles (plus high preimages), and digest-less packets; distinct = (role, digest position) pairs")
+
+
+# ------------------------------------------------------------------------------------------------
 # clock
 
 def check_C20(tier):
